@@ -28,8 +28,18 @@ theorem setJSONOutput_only_from_main :
 
 theorem no_receiver_writes_in_server : Gen.receiverWrites = [] := by decide
 
+/-- the request path (`server`, `server/wrapped_http`, `prover`) declares no package-level variable
+at all.  A read-only table added there would break this without harm; the check then searches for
+an isolation failure with bursts of concurrent requests and reports the broken obligation if it
+finds none — the simple syntactic argument for "no shared mutable state" no longer applies
+(pools, caches and maps are mutated through method calls and aliases that `packageVarWrites`
+cannot see). -/
+theorem no_globals_on_request_path :
+    (Gen.packageVars.filter fun v => v.1 == "server" || v.1 == "prover" || v.1 == "wrapped_http") = [] := by decide
+
 end Smtb.Properties.C13Facts
 
+#print axioms Smtb.Properties.C13Facts.no_globals_on_request_path
 #print axioms Smtb.Properties.C13Facts.only_logger_is_written
 #print axioms Smtb.Properties.C13Facts.setJSONOutput_only_from_main
 #print axioms Smtb.Properties.C13Facts.no_receiver_writes_in_server
